@@ -310,3 +310,18 @@ Proof.
   unfold convolve_regressors. induction cids as [|c l IH]; simpl; [reflexivity|].
   rewrite app_length, IH, compute_regressor_length. reflexivity.
 Qed.
+
+(* ------------------------------------------------------------ FIR: kernels and names follow the LISTED delays *)
+Lemma fir_kernels_nth delays os j : (j < length delays)%nat ->
+  nth j (fir_kernels delays os) [] = fir_kernel (nth j delays O) os.
+Proof.
+  intros H. unfold fir_kernels. rewrite (nth_indep _ [] (fir_kernel O os)) by (rewrite map_length; exact H).
+  apply (map_nth (fun d => fir_kernel d os)).
+Qed.
+Lemma fir_names_nth (show : nat -> string) c delays j : (j < length delays)%nat ->
+  nth j (regressor_names show c Fir delays) EmptyString = (c ++ "_delay_" ++ show (nth j delays O))%string.
+Proof.
+  intros H. unfold regressor_names, model_suffixes. rewrite map_map.
+  rewrite (nth_indep _ EmptyString ((fun d => (c ++ "_delay_" ++ show d)%string) O)) by (rewrite map_length; exact H).
+  apply (map_nth (fun d => (c ++ "_delay_" ++ show d)%string)).
+Qed.
